@@ -21,6 +21,7 @@ import (
 	"bytes"
 	"fmt"
 	"io"
+	"os"
 	"regexp"
 	"sort"
 	"strings"
@@ -36,6 +37,7 @@ import (
 
 	"verifharness/internal/hx"
 	"verifharness/internal/proto"
+	html "verifharness/internal/xnethtml"
 )
 
 func main() { hx.Main("C06", run) }
@@ -451,6 +453,10 @@ func classify(f failure) string {
 			return "tag-context-space"
 		}
 		return ""
+	case jsLineCommentEndedBySeparator(f.b.d):
+		return "js-line-comment-ls-ps"
+	case jsHTMLLikeCommentWithDelimiter(f.b.d):
+		return "js-html-like-comment"
 	case cssCommentHasQuote(src):
 		return "css-comment-quote"
 	case strings.Contains(src, "</script/") || strings.Contains(src, "</script\f") || strings.Contains(src, "</style/") || strings.Contains(src, "</style\f"):
@@ -473,6 +479,105 @@ func classify(f failure) string {
 		return "attr-js-css-not-contextual"
 	}
 	return ""
+}
+
+// scriptTexts: the JavaScript of a document with its holes replaced by 0 — the content of the first
+// script element of a page (to its end tag, or to the end if shrinking removed it), or a whole .js file
+func scriptTexts(d doc) []string {
+	body := d.src
+	switch d.format {
+	case "js":
+	case "html":
+		// the text of the first JavaScript script element, as x/net/html delimits it
+		body = ""
+		z := html.NewTokenizer(strings.NewReader(d.src))
+		in, found := false, false
+	scan:
+		for {
+			switch z.Next() {
+			case html.ErrorToken:
+				break scan
+			case html.StartTagToken:
+				t := z.Token()
+				if t.Data == "script" && scriptKind(t.Attr) == "js" {
+					in, found = true, true
+				}
+			case html.TextToken:
+				if in {
+					body += string(z.Raw())
+				}
+			case html.EndTagToken:
+				if in {
+					break scan
+				}
+			}
+		}
+		if !found {
+			return nil
+		}
+	default:
+		return nil
+	}
+	for {
+		a := strings.Index(body, "{{")
+		if a < 0 {
+			break
+		}
+		b := strings.Index(body[a:], "}}")
+		if b < 0 {
+			break
+		}
+		body = body[:a] + "\x00" + body[a+b+2:]
+	}
+	return []string{body}
+}
+
+// a `//` comment (for the reference tokenizer) is ended by U+2028 / U+2029 and, before the next LF
+// or CR, a show or a quote character follows: the lexer ends line comments at LF and CR only
+// (finding js-line-comment-ls-ps)
+func jsLineCommentEndedBySeparator(d doc) bool {
+	for _, body := range scriptTexts(d) {
+		rest := body
+		for {
+			i := strings.Index(rest, "//")
+			if i < 0 {
+				break
+			}
+			// is this `//` a comment opener for the reference tokenizer?
+			pre := body[:len(body)-len(rest)+i]
+			ts := jsTokens(pre + "//x")
+			if len(ts) == 0 || ts[len(ts)-1].sig != "js:line-comment" || ts[len(ts)-1].val != "x" {
+				rest = rest[i+2:]
+				continue
+			}
+			line := rest[i+2:]
+			if k := strings.IndexAny(line, "\n\r"); k >= 0 {
+				line = line[:k]
+			}
+			for _, sep := range []string{"\u2028", "\u2029"} {
+				if k := strings.Index(line, sep); k >= 0 && strings.ContainsAny(line[k:], "\x00\"'`") {
+					return true
+				}
+			}
+			rest = rest[i+2:]
+		}
+	}
+	return false
+}
+
+// the reference tokenizer reads an HTML-like comment (`<!--`, or `-->` at the start of a line:
+// ECMAScript Annex B.1.1) whose text holds a quote, a backtick or a comment opener: for the lexer
+// that text is code (finding js-html-like-comment)
+func jsHTMLLikeCommentWithDelimiter(d doc) bool {
+	for _, body := range scriptTexts(d) {
+		for _, t := range jsTokens(strings.ReplaceAll(body, "\x00", "0")) {
+			if (t.sig == "js:html-open-comment" || t.sig == "js:html-close-comment") &&
+				(strings.ContainsAny(t.val, "\"'`") || strings.Contains(t.val, "/*") || strings.Contains(t.val, "//")) {
+				return true
+			}
+		}
+	}
+	return false
 }
 
 // the value contains no U+2028 / U+2029 but two copies of it side by side do (it ends with a
@@ -696,6 +801,9 @@ func knownCases() []knownCase {
 		knownCase{id: "css-comment-quote", d: h(`<style>/* it's */ a { color: {{ s }} }</style>`), val: "a b"},
 		knownCase{id: "script-end-tag-slash", d: h(`<script>var x = 1;</script/><a title="{{ s }}">`), val: `" onclick="alert(1)`},
 		knownCase{id: "js-block-comment-breakout", d: h(`<script>/* {{ s }} */</script>`), val: "*/alert(1)/*"})
+	kc = append(kc,
+		knownCase{id: "js-line-comment-ls-ps", d: h("<script>// a\u2028 var str = \"{{ s }}\";</script>"), val: "a a"},
+		knownCase{id: "js-html-like-comment", d: h("<script>x <!-- it's\n var name = {{ s }};</script>"), val: "alert(1)"})
 	r := h(`<p>{{ render "x.txt" }}</p>`)
 	r.extra["x.txt"] = "{{ s }}"
 	kc = append(kc, knownCase{id: "render-fastpath-format", d: r, val: "<b>"})
@@ -728,6 +836,9 @@ func run(c *hx.Ctx) error {
 			if br.Finding == "" {
 				br.Name += " [class " + id + " — not listed in known_findings.json]"
 			}
+		}
+		if os.Getenv("VERIF_C06_DEBUG") != "" {
+			fmt.Fprintf(os.Stderr, "FAILING [%s] class=%q %q values %s\n", stream, id, sf.b.d.src, describe(sf.val, sf.b.usedSlots))
 		}
 		res.AddBreak(br)
 	}
@@ -762,15 +873,8 @@ func run(c *hx.Ctx) error {
 	nVals := c.N(9, 14)
 	built6, buildErr := 0, 0
 	var l2docs []*built
-	for i := 0; i < nDocs; i++ {
-		var d doc
-		stream := "main"
-		if i%8 == 7 {
-			d = g.riskyDoc()
-			stream = "risky"
-		} else {
-			d = g.mainDoc()
-		}
+	// process builds one document, records it, and checks it with nVals value assignments
+	process := func(d doc, stream string, sample bool) {
 		b, err := build(d)
 		if err != nil {
 			buildErr++
@@ -778,10 +882,10 @@ func run(c *hx.Ctx) error {
 			if buildErr <= 3 {
 				res.Notes = append(res.Notes, "generator produced a document that does not build: "+err.Error()+"\n"+d.human())
 			}
-			continue
+			return
 		}
 		built6++
-		if len(l2docs) < 4000 {
+		if len(l2docs) < 4000 || stream == "delimiters" {
 			l2docs = append(l2docs, b)
 		}
 		for _, f := range d.feats {
@@ -794,7 +898,7 @@ func run(c *hx.Ctx) error {
 			}
 			res.Hist(k)
 		}
-		if i%100 == 0 {
+		if sample {
 			res.Sample(map[string]any{"stream": stream, "file": d.fileName(), "template": d.src, "benign_output": b.benign})
 		}
 		reported := false
@@ -830,6 +934,18 @@ func run(c *hx.Ctx) error {
 				}
 			}
 		}
+	}
+	for i := 0; i < nDocs; i++ {
+		if i%8 == 7 {
+			process(g.riskyDoc(), "risky", i%100 == 0)
+		} else {
+			process(g.mainDoc(), "main", i%100 == 0)
+		}
+	}
+	// 2b. adversarial comment / string delimiters (delims.go): the whole family, then random pairs
+	for i, d := range g.delimiterDocs(c.N(400, 4000)) {
+		nDocs++
+		process(d, "delimiters", i%50 == 0)
 	}
 	res.Histogram["documents-built"] = built6
 	if built6 < nDocs*9/10 {
